@@ -137,7 +137,7 @@ def table_st(draw, stat=False):
     if stat:
         case["steps"] = draw(st.sampled_from([3000, 4000]))
     else:
-        case["probe_steps"] = draw(st.lists(st.integers(0, 40), min_size=1, max_size=8))
+        case["probe_steps"] = draw(st.lists(st.one_of(st.integers(0, 40), st.integers(0, 40), st.sampled_from([60, 120, 10 ** 6, 2 ** 31, 2 ** 31 + 7, 2 ** 40 + 60])), min_size=1, max_size=8))
         case["via_run"] = draw(st.booleans())
         case["new_interval"] = draw(st.integers(1, 5))
     return case
